@@ -5,6 +5,7 @@ import (
 	"github.com/tobgu/qframe"
 	"github.com/tobgu/qframe/config/groupby"
 	"sort"
+	"strings"
 	"testing"
 
 	"pgregory.net/rapid"
@@ -146,6 +147,22 @@ func sizeClass(n int) string {
 
 func TestC03(t *testing.T) {
 	rapid.Check(t, func(t *rapid.T) {
+		if hx.Rarely(t, 80, "norows-untyped") {
+			// a frame without rows whose columns have no type yet (a header-only CSV document read without declared
+			// types): ordering it is ordering nothing - the frame comes back, no error
+			qf := qframe.ReadCSV(strings.NewReader("a,b,c\n"))
+			keys := rapid.SliceOfNDistinct(rapid.SampledFrom([]string{"a", "b", "c"}), 1, 3, rapid.ID[string]).Draw(t, "keys")
+			var os []qframe.Order
+			for _, k := range keys {
+				os = append(os, qframe.Order{Column: k, Reverse: rapid.Bool().Draw(t, "rev"), NullLast: rapid.Bool().Draw(t, "nl")})
+			}
+			r := qf.Sort(os...)
+			if qf.Err != nil || r.Err != nil || r.Len() != 0 || fmt.Sprint(r.ColumnNames()) != "[a b c]" {
+				t.Fatalf("Sort(%v) of a frame without rows read from a header-only CSV document: Err %v, Len %d, columns %v (read: %v)", os, r.Err, r.Len(), r.ColumnNames(), qf.Err)
+			}
+			evC03.Case(false, func() string { return "header-only CSV frame ordered" }, "no-rows-untyped-columns")
+			return
+		}
 		mode := rapid.IntRange(0, 19).Draw(t, "mode")
 		var d hx.Derived
 		var orders []hx.Order
